@@ -10,6 +10,8 @@
   An attestation `a` consists of the chunks (a, 0) … (a, nchunks a - 1).  Events are arbitrary chunk arrivals
   (gt, a, seq): duplicated, re-ordered and interleaved transfers are just event lists.
 -/
+import Ipv8.C18.GenGuard
+
 namespace Ipv8.C18
 
 structure ReqCache where
@@ -50,10 +52,10 @@ def runChunks (reqs : List (Nat × Nat)) (evs : List (Nat × Nat × Nat × Nat))
 
 /-! ### challenge threshold of the range format -/
 
-/-- `_safe_rndint`: a draw is accepted by the verifier's generator iff it is not below LARGE_INTEGER -/
-def verifierAccepts (large out : Int) : Bool := !(out < large)
+/-- a draw is accepted by the verifier's generator iff `_safe_rndint`'s loop test (GENERATED from the source) fails -/
+def verifierAccepts (large out : Int) : Bool := !(verifierRedraws large out)
 
-/-- `create_challenge_response`: the prover answers honestly iff neither s nor t is below LARGE_INTEGER -/
-def proverAnswersHonestly (large s t : Int) : Bool := !(s < large || t < large)
+/-- the prover answers honestly iff `create_challenge_response`'s refusal test (GENERATED from the source) fails -/
+def proverAnswersHonestly (large s t : Int) : Bool := !(proverRefuses large s t)
 
 end Ipv8.C18
